@@ -53,4 +53,10 @@ theorem semantics_table (fs : List BoolFn) (a b v : Nat) (c : Bool) (σ : Asg) :
 example : opsValid [.var 0, .var 1, .and 2 3, .restrict 4 0 true, .xor 5 3] 2 := by
   simp [opsValid, Op.valid, VBOT]
 
+/-- non-vacuity of the single-operation theorems: the fresh store with its two constants and the
+operation `⊥ ∧ ⊤` meet all hypotheses -/
+example : WF Store.init ∧ HistOK Store.init [0, 1] [fun _ => false, fun _ => true] ∧ (Op.and 0 1).valid 2 ∧
+    (0 : Nat) < Store.init.nodes.size :=
+  ⟨WF_init, HistOK.init, by simp [Op.valid], by simp [Store.init]⟩
+
 end C07
